@@ -162,4 +162,18 @@ CHECKS = {
         note="Trusted base: the three GNU 12 compilers. Values are bounded to +-2^20 by construction. The generator's own "
              "value model is cross-checked against g++ (disagreement is a harness error).",
     ),
+    "C10": dict(
+        level="exploration",
+        technique="exhaustive small-scope enumeration of the extracted string helpers under ASan/UBSan against a Python "
+                  "reference of the documented rule (plus end-to-end Fortran string drivers when built)",
+        design_ref="DESIGN.md section 4, C10",
+        text="The C and C++ source variants of ShroudStrCopy, ShroudStrBlankFill, ShroudLenTrim, ShroudStrAlloc/Free and "
+             "ShroudStrArrayAlloc/Free, exactly as Shroud writes them, are compiled with AddressSanitizer and called for ALL "
+             "destination/source lengths up to the bound and all contents over {a, blank, b} on exact-size heap buffers; "
+             "each result must equal the documented rule (truncate or blank-pad, no NUL inside a Fortran buffer, NULL -> "
+             "blanks, trimmed NUL-terminated copies) and no access may leave the given lengths.",
+        note="Bounds: lengths 0..5 (quick) / 0..7 (thorough). Preconditions are the ones real callers satisfy. "
+             "ShroudCopyStringAndFree/ShroudStrToArray and the statement-level len/len_trim choices are covered by the "
+             "end-to-end part (vf/exec) when present.",
+    ),
 }
